@@ -62,7 +62,15 @@ fn max_one_either_side(
             .map(|data| data.spaces_before.min(1)),
         formatted_tokens
             .get_formatting_data(token_index + 1)
-            .map(|data| data.spaces_before.min(1)),
+            .map(|data| {
+                // A token on another line may have no space before it; the
+                // tokens mustn't become adjacent if they get unwrapped.
+                if data.newlines_before > 0 {
+                    1
+                } else {
+                    data.spaces_before.min(1)
+                }
+            }),
     )
 }
 
